@@ -193,6 +193,11 @@ def compare(reported, S, U, cost, Z, first, dtype, site, stats, seq, detail):
     rep = reported.detach().double().tolist()
     for n in range(N):
         if rep[n] != rep[n] or rep[n] in (float("inf"), float("-inf")):
+            if mags[n] > Fr(torch.finfo(dtype).max) / 1024:
+                # the position sizes a diverging recurrent model produced over a long horizon take the sum of the ledger's
+                # terms out of the dtype's range: overflow of the float computation (inf - inf), not a wrong identity
+                stats.ambiguous_skipped += 1
+                continue
             raise Violation(ID, "ledger_mismatch", site, dict(detail, path=n, reported=rep[n], ledger=float(ref[n])), seq)
         err = abs(Fr(rep[n]) - ref[n])
         bound = Fr(K) * Fr(eps) * mags[n] + Fr(torch.finfo(dtype).tiny) * 8
